@@ -26,6 +26,16 @@ CHECKS = {
         ref="4 C17", technique="Coq proof over a source-regenerated shared-state inventory + memo transparency theorem; differential history/fresh-interpreter runs with deep argument snapshots",
         note=TB + " CPython-level aliasing outside the inventoried carriers is covered only by the differential run; the "
              "write-site/escape counts are a syntactic (ast) approximation."),
+    "C13": dict(
+        text="Universal theorems over all operation histories on a view and on views sliced from it to any depth: "
+             "confinement of every issued access to the issuing view (and of every view to its parent/allocation), "
+             "refinement of a fixed-length file seen through windows (values, error classes, warnings, final state), "
+             "read-after-write, truncation with warning, slice range semantics, death after close/free; refutation "
+             "theorems for the code as found (two escapes, slice-after-close) and for the SEEK_END sign (known finding). "
+             "Model tied to the real MemoryIO by exact correspondence on random histories against a recording fake "
+             "controller; an independent bytearray-file oracle decides the property on every history.",
+        ref="4 C13", technique="Coq proof (invariant over op histories + refinement to an abstract file) + vm_compute correspondence on histories",
+        note=TB + " The machine controller's read/write are replaced by a recording fake (C07 covers them)."),
 }
 NOT_YET = {}
 def main():
